@@ -419,9 +419,9 @@ static int _GD_WriteConst(DIRFILE *D, FILE *stream, int me, int permissive,
   else if (type == GD_INT16)
     fprintf(stream, "%" PRIi16 "%s", *(int16_t *)value, postamble);
   else if (type == GD_FLOAT64)
-    fprintf(stream, "%.15g%s", *(double *)value, postamble);
+    fprintf(stream, "%.17g%s", *(double *)value, postamble);
   else if (type == GD_COMPLEX128)
-    fprintf(stream, "%.15g;%.15g%s", *(double *)value, ((double *)value)[1],
+    fprintf(stream, "%.17g;%.17g%s", *(double *)value, ((double *)value)[1],
         postamble);
   else {
     _GD_InternalError(D);
@@ -671,10 +671,10 @@ static int _GD_FieldSpec(DIRFILE* D, FILE* stream, const gd_entry_t* E,
           if (fprintf(stream, "%" PRId64, *(int64_t*)E->e->u.scalar.d) < 0)
             goto WRITE_ERR;
         } else if (E->EN(scalar,const_type) & GD_IEEE754) {
-          if (fprintf(stream, "%.15g", *(double*)E->e->u.scalar.d) < 0)
+          if (fprintf(stream, "%.17g", *(double*)E->e->u.scalar.d) < 0)
             goto WRITE_ERR;
         } else if (E->EN(scalar,const_type) & GD_COMPLEX) {
-          if (fprintf(stream, "%.15g;%.15g", *(double*)E->e->u.scalar.d,
+          if (fprintf(stream, "%.17g;%.17g", *(double*)E->e->u.scalar.d,
                 *((double*)E->e->u.scalar.d + 1)) < 0)
           {
             goto WRITE_ERR;
@@ -693,9 +693,9 @@ static int _GD_FieldSpec(DIRFILE* D, FILE* stream, const gd_entry_t* E,
           if (E->EN(scalar,const_type) & GD_SIGNED)
             len = sprintf(buffer, " %" PRId64, ((int64_t*)E->e->u.scalar.d)[z]);
           else if (E->EN(scalar,const_type) & GD_IEEE754)
-            len = sprintf(buffer, " %.15g", ((double*)E->e->u.scalar.d)[z]);
+            len = sprintf(buffer, " %.17g", ((double*)E->e->u.scalar.d)[z]);
           else if (E->EN(scalar,const_type) & GD_COMPLEX)
-            len = sprintf(buffer, " %.15g;%.15g",
+            len = sprintf(buffer, " %.17g;%.17g",
                 ((double*)E->e->u.scalar.d)[2 * z],
                 ((double*)E->e->u.scalar.d)[2 * z + 1]);
           else
